@@ -119,9 +119,9 @@ static void apply_updates(int n) {
 }
 
 int main(void) {
-  char *line, *tok[1024];
+  char *line; static char *tok[16384];
   while ((line = vh_readline())) {
-    int n = vh_split(line, tok, 1024);
+    int n = vh_split(line, tok, 16384);
     if (n == 0 || tok[0][0] == '#') continue;
     if (!strcmp(tok[0], "screen") && n == 5 && !scr) {
       W = atoi(tok[1]); H = atoi(tok[2]);
